@@ -70,6 +70,8 @@ def time_execution(
 
 # Global semaphore registry for retry decorator
 GLOBAL_RETRY_SEMAPHORES: dict[str, asyncio.Semaphore] = {}
+# event loop each registered semaphore was created in (asyncio primitives cannot be shared between loops)
+GLOBAL_RETRY_SEMAPHORE_LOOPS: dict[str, asyncio.AbstractEventLoop | None] = {}
 GLOBAL_RETRY_SEMAPHORE_LOCK = threading.Lock()
 
 # Multiprocess semaphore support
@@ -191,9 +193,17 @@ def _get_or_create_semaphore(
                         GLOBAL_RETRY_SEMAPHORES[fallback_key] = asyncio.Semaphore(semaphore_limit)
                     return GLOBAL_RETRY_SEMAPHORES[fallback_key]
     else:
+        try:
+            current_loop = asyncio.get_running_loop()
+        except RuntimeError:
+            current_loop = None
         with GLOBAL_RETRY_SEMAPHORE_LOCK:
-            if sem_key not in GLOBAL_RETRY_SEMAPHORES:
+            # An asyncio.Semaphore binds to the event loop it is first contended in. One left over from an
+            # earlier event loop (successive asyncio.run() calls, one loop per test, ...) raises
+            # "is bound to a different event loop" as soon as a caller has to wait: start afresh in a new loop.
+            if sem_key not in GLOBAL_RETRY_SEMAPHORES or GLOBAL_RETRY_SEMAPHORE_LOOPS.get(sem_key) is not current_loop:
                 GLOBAL_RETRY_SEMAPHORES[sem_key] = asyncio.Semaphore(semaphore_limit)
+                GLOBAL_RETRY_SEMAPHORE_LOOPS[sem_key] = current_loop
             return GLOBAL_RETRY_SEMAPHORES[sem_key]
 
 
